@@ -61,6 +61,7 @@ def check_case(sp, col, shard):
         return
     # ---------------- graph level ----------------
     seen_scen = set()
+    kept = []
     for path, g, e in D.walk(b, orders='first', max_paths=300):
         if e is not None:
             continue
@@ -74,6 +75,7 @@ def check_case(sp, col, shard):
             continue
         seen_scen.add(key)
         assign, clos, per = scen_ref[key]
+        kept.append((key, g, path))
         n_scen += 1
         col.count('monitor_scenario_evaluations')
         all_have = all(len(v) > 0 for v in per.values())
@@ -170,6 +172,34 @@ def check_case(sp, col, shard):
                     col.violation('applied_instance_not_feasible_final', sp, {'path': path, 'requested': s_,
                                                                               'feasible': io['feasible'],
                                                                               'final': io['final']}, flags)
+                    break
+    # ---------------- interleaved use: query every kept scenario again after all of them have been created ---------
+    # (no other call on the graph in between: what an old instance offers must not depend on which instance was
+    # constructed or checked last)
+    for key, g, path in list(reversed(kept)) + kept[:3]:
+        assign, clos, per = scen_ref[key]
+        col.count('monitor_interleaved_evaluations')
+        try:
+            offered = O.conn_sets(g, b)
+        except Exception as ex:  # noqa
+            info = D.exc_info(ex)
+            col.violation('iter_conn_edges_exception', sp, {'path': path, 'exc': info, 'interleaved': True}, flags,
+                          where={'exc': info['type'], 'site': info['site']})
+            continue
+        for kid, want in per.items():
+            got = {tuple(map(tuple, s_)) for s_ in offered.get('K:' + kid, [])}
+            if got != want:
+                col.violation('offered_sets_differ', sp,
+                              {'path': path, 'choice': kid, 'missing': sorted(want - got)[:3],
+                               'extra': sorted(got - want)[:3], 'n_ref': len(want), 'n_offered': len(got),
+                               'interleaved': True}, flags,
+                              where={'dir': 'missing' if want - got else 'extra', 'level': 'graph_interleaved'})
+                break
+            for s_ in sorted(want)[:3]:
+                if s_ and not b.conn[kid].validate_conn_edges(g, [(b.node[u], b.node[v]) for u, v in s_]):
+                    col.violation('validate_conn_edges_wrong', sp, {'path': path, 'choice': kid, 'edges': s_,
+                                                                    'validate': False, 'interleaved': True}, flags,
+                                  where={'dir': 'rejects_valid', 'level': 'graph_interleaved'})
                     break
     # ---------------- through the processor (complete encoder) ----------------
     processor_level(sp, case, scen_ref, col, flags)
